@@ -75,7 +75,11 @@ Why(r) ==
               THEN "content-column-of-unreadable-file-not-empty"
               ELSE IF \E i \in 1 .. Len(rows) : LET n == NodeByPath(rows[i][1]) IN
                    n \in files \ bad /\ (rows[i][2] # ToString(Lines(n)) \/ rows[i][3] # r.snapshot[n].sha1)
-              THEN "readable-file-disturbed" ELSE "ok")
+              THEN "readable-file-disturbed"
+              \* (a directory opens but cannot be read as content: its content-derived columns are empty, like an unreadable file's)
+              ELSE IF \E i \in 1 .. Len(rows) : LET n == NodeByPath(rows[i][1]) IN
+                   n \in all \ files /\ w.nodes[n].kind = "dir" /\ (rows[i][2] # "" \/ rows[i][3] # "")
+              THEN "content-column-of-a-directory-not-empty" ELSE "ok")
   ELSE \* pipe
      LET free == r.obs.free.bytes  got == o.bytes IN
      IF o.status \notin {0, 1} THEN "status-" \o ToString(o.status)
